@@ -105,6 +105,9 @@ type G struct {
 
 	nmake int
 	isEnv bool // goroutine belongs to the harness (site outside the repository)
+
+	raceTok byte          // race mode: carries the happens-before edge waker -> wakee
+	exited  chan struct{} // closed when the real goroutine has finished
 }
 
 // Point is one recorded decision.
@@ -143,7 +146,7 @@ type Exec struct {
 	gs       []*G
 	cur      *G
 	runq     []*G
-	chans    map[unsafe.Pointer]*chanState
+	chans    ptab // real channel address -> *chanState
 	chanList []*chanState
 	objs     []*obj
 	sum      H // commutative sum of all entity contributions
@@ -164,11 +167,13 @@ type Exec struct {
 	steps int
 	cache *Cache
 
-	atoms    map[unsafe.Pointer]*atomObj
+	atoms    ptab  // address -> *atomObj
 	vnow     int64 // virtual nanoseconds since vbase
 	timers   []*vtimer
 	nchoose  int
 	frozen   bool // the virtual clock does not advance on its own
+	idleTok  byte // race mode: harness goroutines -> WaitIdle
+	tearTok  byte // race mode: orders the sequential teardown
 	lastKey  H
 	haveLast bool
 }
@@ -195,14 +200,14 @@ func Epoch() uint64 {
 type killed struct{}
 
 func (e *Exec) newG(parent *G, site string) *G {
-	g := &G{id: len(e.gs), wake: make(chan struct{}, 1), site: site, spinSite: -1}
+	g := &G{id: len(e.gs), wake: make(chan struct{}, 1), site: site, spinSite: -1, exited: make(chan struct{})}
 	if parent != nil {
 		g.hash = mix2(parent.hash, opStart, hashString(site))
 	} else {
 		g.hash = 0x1234567
 	}
 	g.isEnv = !strings.Contains(site, "@repo")
-	e.gs = append(e.gs, g)
+	e.gs = push(e.gs, g)
 	return g
 }
 
@@ -225,14 +230,26 @@ func (e *Exec) touchG(g *G) {
 }
 
 func (e *Exec) park(g *G) {
+	// the scheduler's hand-off is not a synchronisation of the program: hidden from the detector
+	raceDisable()
 	select {
 	case <-g.wake:
 	case <-e.kill:
+		raceEnable()
 		runtime.Goexit()
 	}
+	raceEnable()
 	if e.exiting {
+		raceAcquire(unsafe.Pointer(&e.tearTok))
 		runtime.Goexit()
 	}
+}
+
+// pass hands the run token to g.
+func (e *Exec) pass(g *G) {
+	raceDisable()
+	g.wake <- struct{}{}
+	raceEnable()
 }
 
 func (e *Exec) finish(deadlock bool) {
@@ -246,15 +263,15 @@ func (e *Exec) finish(deadlock bool) {
 		if g.state == stDone || g.id == 0 {
 			continue
 		}
-		e.out.Live = append(e.out.Live, g.site)
+		e.out.Live = push(e.out.Live, g.site)
 		if g.spinBlocked {
-			e.out.Spinners = append(e.out.Spinners, g.describe())
+			e.out.Spinners = push(e.out.Spinners, g.describe())
 		}
 	}
 	if deadlock {
 		for _, g := range e.gs {
 			if g.state == stBlocked {
-				e.out.Blocked = append(e.out.Blocked, g.describe())
+				e.out.Blocked = push(e.out.Blocked, g.describe())
 			}
 		}
 	}
@@ -317,7 +334,7 @@ func (e *Exec) pick(n int, kind int) int {
 	if idx != 0 && kind != KChoose {
 		e.spent++
 	}
-	e.points = append(e.points, Point{N: n, Chosen: idx, Kind: kind})
+	e.points = push(e.points, Point{N: n, Chosen: idx, Kind: kind})
 	return idx
 }
 
@@ -327,20 +344,20 @@ func (e *Exec) pick(n int, kind int) int {
 func (e *Exec) candidates(cur *G) []*G {
 	cands := make([]*G, 0, len(e.runq)+1)
 	if cur != nil && !cur.waitIdle {
-		cands = append(cands, cur)
+		cands = push(cands, cur)
 	}
 	for _, g := range e.runq {
 		if !g.waitIdle {
-			cands = append(cands, g)
+			cands = push(cands, g)
 		}
 	}
 	if len(cands) == 0 {
 		if cur != nil && cur.waitIdle {
-			return append(cands, cur)
+			return push(cands, cur)
 		}
 		for _, g := range e.runq {
 			if g.waitIdle {
-				return append(cands, g)
+				return push(cands, g)
 			}
 		}
 	}
@@ -350,8 +367,7 @@ func (e *Exec) candidates(cur *G) []*G {
 func (e *Exec) removeRunq(g *G) {
 	for i, x := range e.runq {
 		if x == g {
-			copy(e.runq[i:], e.runq[i+1:])
-			e.runq = e.runq[:len(e.runq)-1]
+			e.runq = removeIdx(e.runq, i)
 			return
 		}
 	}
@@ -386,21 +402,29 @@ func yield() *G {
 		}
 		return g
 	}
-	if e.cache != nil && len(e.points) >= len(e.prefix) {
+	sameState := false
+	if e.cache != nil {
 		k := e.stateKey()
-		// a goroutine that was just created or woken reaches its first yield without having
-		// changed anything: that is the state of the previous check, not a revisit
+		// A goroutine that was just created or woken reaches its first yield without having
+		// changed anything: that is the state of the previous decision (also when that decision
+		// was the last one of the replayed prefix), not a revisit.
 		if e.haveLast && k == e.lastKey {
-			// same state, new decision
-		} else if e.lastKey, e.haveLast = k, true; !e.cache.visit(k, e.spent, e.opts.Unbounded) {
-			e.out.Pruned = true
-			e.finish(false)
-			e.park(g)
+			// same state as at the previous decision: its alternatives were offered there, and
+			// "run this goroutine up to its first operation, then switch" is the same as
+			// switching at once - no new decision point
+			sameState = true
+		} else {
+			e.lastKey, e.haveLast = k, true
+			if len(e.points) >= len(e.prefix) && !e.cache.visit(k, e.spent, e.opts.Unbounded) {
+				e.out.Pruned = true
+				e.finish(false)
+				e.park(g)
+			}
 		}
 	}
 	cands := e.candidates(g)
 	idx := 0
-	if len(cands) > 1 {
+	if len(cands) > 1 && !(sameState && e.opts.Unbounded && !g.waitIdle) {
 		if e.spent < e.opts.Bound {
 			idx = e.pick(len(cands), KSched)
 		}
@@ -416,16 +440,14 @@ func yield() *G {
 	// preempted: g goes to the front of the queue so that it resumes when next blocks
 	e.removeRunq(next)
 	g.state = stRunnable
-	e.runq = append(e.runq, nil)
-	copy(e.runq[1:], e.runq)
-	e.runq[0] = g
+	e.runq = pushFront(e.runq, g)
 	next.state = stRunning
 	if next.waitIdle {
 		next.waitIdle = false
 		e.touchG(next)
 	}
 	e.cur = next
-	next.wake <- struct{}{}
+	e.pass(next)
 	e.park(g)
 	return g
 }
@@ -448,7 +470,7 @@ func (e *Exec) traceOp(g *G) {
 		}
 	}
 	if len(e.out.Trace) < 100000 {
-		e.out.Trace = append(e.out.Trace, fmt.Sprintf("g%d[%s] %s @%s", g.id, g.site, op, where))
+		e.out.Trace = push(e.out.Trace, fmt.Sprintf("g%d[%s] %s @%s", g.id, g.site, op, where))
 	}
 }
 
@@ -473,7 +495,7 @@ func (e *Exec) leave() {
 		e.touchG(next)
 	}
 	e.cur = next
-	next.wake <- struct{}{}
+	e.pass(next)
 }
 
 // block parks the current goroutine in a wait queue (already enqueued by the caller).
@@ -482,8 +504,12 @@ func (e *Exec) block(g *G, what string) {
 	g.blockedOn = what
 	g.blockN = runtime.Callers(3, g.blockPCs[:])
 	e.touchG(g)
+	if g.isEnv {
+		raceReleaseMerge(unsafe.Pointer(&e.idleTok))
+	}
 	e.leave()
 	e.park(g)
+	raceAcquire(unsafe.Pointer(&g.raceTok))
 	g.state = stRunning
 	g.blockedOn = ""
 	g.blockN = 0
@@ -492,8 +518,9 @@ func (e *Exec) block(g *G, what string) {
 
 // ready makes a blocked goroutine runnable.
 func (e *Exec) ready(g *G) {
+	raceReleaseMerge(unsafe.Pointer(&g.raceTok)) // the waker's operation happens before the wakee resumes
 	g.state = stRunnable
-	e.runq = append(e.runq, g)
+	e.runq = push(e.runq, g)
 	e.touchG(g)
 }
 
@@ -541,9 +568,11 @@ func Go(f func()) {
 	e.wg.Add(1)
 	go func() {
 		defer e.wg.Done()
+		defer close(g.exited)
 		defer func() {
 			if e.exiting {
 				recover()
+				raceReleaseMerge(unsafe.Pointer(&e.tearTok))
 				return
 			}
 			if r := recover(); r != nil {
@@ -559,9 +588,13 @@ func Go(f func()) {
 			}
 			g.state = stDone
 			e.touchG(g)
+			if g.isEnv {
+				raceReleaseMerge(unsafe.Pointer(&e.idleTok))
+			}
 			e.leave()
 		}()
 		e.park(g)
+		raceAcquire(unsafe.Pointer(&g.raceTok))
 		g.state = stRunning
 		f()
 	}()
@@ -604,6 +637,7 @@ func WaitIdle() {
 	g.waitIdle = true
 	e.touchG(g)
 	yield()
+	raceAcquire(unsafe.Pointer(&e.idleTok)) // what the harness's own goroutines did before they blocked
 	// the caller now "observes" the whole state
 	g.hash = mix2(g.hash, opIdle, uint64(e.sum))
 	e.touchG(g)
@@ -624,10 +658,10 @@ func Log(format string, a ...any) {
 		return
 	}
 	if len(a) == 0 {
-		ex.out.Log = append(ex.out.Log, format)
+		ex.out.Log = push(ex.out.Log, format)
 		return
 	}
-	ex.out.Log = append(ex.out.Log, fmt.Sprintf(format, a...))
+	ex.out.Log = push(ex.out.Log, fmt.Sprintf(format, a...))
 }
 
 // Fail records a violation found by the harness inside the execution. Oracles evaluated here
@@ -638,7 +672,7 @@ func Fail(format string, a ...any) {
 	if !live() {
 		return
 	}
-	ex.out.Fails = append(ex.out.Fails, fmt.Sprintf(format, a...))
+	ex.out.Fails = push(ex.out.Fails, fmt.Sprintf(format, a...))
 }
 
 // NFails returns the number of violations recorded so far in this execution.
@@ -661,7 +695,7 @@ func LiveRepoGoroutines() []string {
 			if g.spinBlocked {
 				s += " [spinning]"
 			}
-			out = append(out, s)
+			out = push(out, s)
 		}
 	}
 	sort.Strings(out)
@@ -676,7 +710,7 @@ func LiveSpinners() []string {
 	}
 	for _, g := range ex.gs {
 		if g.state != stDone && g.spinBlocked {
-			out = append(out, g.describe())
+			out = push(out, g.describe())
 		}
 	}
 	return out
@@ -699,7 +733,7 @@ type Options struct {
 
 func run(prefix []int, opts *Options, cache *Cache, body func()) *Outcome {
 	epochCtr++
-	e := &Exec{prefix: prefix, opts: opts, chans: map[unsafe.Pointer]*chanState{}, done: make(chan struct{}),
+	e := &Exec{prefix: prefix, opts: opts, done: make(chan struct{}),
 		kill: make(chan struct{}), cache: cache, epoch: epochCtr}
 	ex = e
 	g0 := e.newG(nil, "main")
@@ -710,9 +744,11 @@ func run(prefix []int, opts *Options, cache *Cache, body func()) *Outcome {
 	e.wg.Add(1)
 	go func() {
 		defer e.wg.Done()
+		defer close(g0.exited)
 		defer func() {
 			if e.exiting {
 				recover()
+				raceReleaseMerge(unsafe.Pointer(&e.tearTok))
 				return
 			}
 			if r := recover(); r != nil {
@@ -723,6 +759,7 @@ func run(prefix []int, opts *Options, cache *Cache, body func()) *Outcome {
 				}
 			}
 			g0.state = stDone
+			raceReleaseMerge(unsafe.Pointer(&e.tearTok))
 			e.finish(false)
 		}()
 		body()
@@ -736,6 +773,26 @@ func run(prefix []int, opts *Options, cache *Cache, body func()) *Outcome {
 		os.Exit(2)
 	}
 	e.exiting = true
+	if RaceEnabled {
+		// tear the goroutines down one at a time, each ordered after the previous one, so that
+		// their deferred calls are not reported as racing with each other
+		raceAcquire(unsafe.Pointer(&e.tearTok))
+		for i := 0; i < len(e.gs); i++ {
+			g := e.gs[i]
+			select {
+			case <-g.exited:
+				continue
+			default:
+			}
+			raceRelease(unsafe.Pointer(&e.tearTok))
+			select {
+			case g.wake <- struct{}{}:
+			default:
+			}
+			<-g.exited
+			raceAcquire(unsafe.Pointer(&e.tearTok))
+		}
+	}
 	close(e.kill)
 	e.wg.Wait()
 	ex = nil
